@@ -185,7 +185,7 @@ def get_units():
             # diagnostic classes declare a constant frame size of 8: right only for exactly one data word
             c.findings = dict(c.findings)
             c.findings['oracle'] = ('C03-F2', lambda v: L.length(v['words']) != 1)
-        us.append(Unit('C03/oracle.%s' % c.name, oracle_lemma(c), ['C03'], functions=['pymodbus.pdu.ModbusPDU.calculateRtuFrameSize', 'pymodbus.utilities.rtuFrameSize']))
+        us.append(Unit('C03/oracle.%s' % c.name, oracle_lemma(c), ['C03'], unroll=c.unroll, bounded=c.bounded, functions=['pymodbus.pdu.ModbusPDU.calculateRtuFrameSize', 'pymodbus.utilities.rtuFrameSize']))
     return us
 
 
